@@ -489,6 +489,41 @@ def summarise(func, limit=6000, to_raise=True, lists=False):
                         if tval != (lab == 'T'):
                             ps.infeasible = True
                         continue
+                    # `'k' in X` after `X['k'] = v` on this path (nothing that
+                    # could remove the key in between) is decided
+                    if isinstance(core, ast.Compare) and len(core.ops) == 1 and \
+                            isinstance(core.ops[0], (ast.In, ast.NotIn)) and \
+                            isinstance(core.left, ast.Constant):
+                        cont_ = norm_src(core.comparators[0])
+                        member_ = None
+                        for e_ in reversed(ps.events):
+                            if e_.kind == 'store' and isinstance(e_.r, ast.Subscript) \
+                                    and norm_src(e_.r.value) == cont_:
+                                if isinstance(e_.r.slice, ast.Constant) and \
+                                        e_.r.slice.value == core.left.value:
+                                    member_ = True
+                                    break
+                                continue
+                            if e_.r is not None and cont_ in norm_src(e_.r):
+                                rt_ = norm_src(e_.r)
+                                if e_.kind == 'call' and rt_.startswith(
+                                        (cont_ + '.update(', cont_ + '.get(',
+                                         cont_ + '.setdefault(')):
+                                    continue
+                                if e_.kind == 'call' and rt_ == cont_:
+                                    continue       # the call that produced it
+                                break
+                        if member_:
+                            val_ = isinstance(core.ops[0], ast.In)
+                            nots = 0
+                            x_ = t
+                            while isinstance(x_, ast.UnaryOp) and isinstance(x_.op, ast.Not):
+                                x_ = x_.operand
+                                nots += 1
+                            tval = val_ if nots % 2 == 0 else not val_
+                            if tval != (lab == 'T'):
+                                ps.infeasible = True
+                            continue
                     # a comparison of two literals is decided
                     if isinstance(core, ast.Compare) and len(core.ops) == 1 and \
                             isinstance(core.left, ast.Constant) and \
